@@ -1755,6 +1755,17 @@ pub fn c05(rec: &RunRecord) -> Vec<Violation> {
                 v.push(Violation::new("C05", format!("c05.{field}"), format!("after round {k}, ttl {ttl}: {detail}")));
             }
         }
+        // the history never exceeds the configured sample limit - in the table of any flow
+        let over = std::panic::catch_unwind(std::panic::AssertUnwindSafe(|| {
+            state
+                .flows()
+                .iter()
+                .flat_map(|(_, id)| state.hops_for_flow(*id).iter().map(move |h| (id.0, h.ttl(), h.samples().len())))
+                .find(|(_, _, n)| *n > max_samples)
+        }));
+        if let Ok(Some((flow, ttl, n))) = over {
+            v.push(Violation::new("C05", "c05.law.flow-samples-bounded", format!("after round {k}, flow {flow} ttl {ttl}: history of {n} samples, the sample limit is {max_samples}")));
+        }
         if v.len() > 8 {
             break;
         }
